@@ -58,16 +58,37 @@ func ruleListItemChildCoverage(c *eng.Ctx) {
 		c.Undec(R, "htmldoc.getDirectTextContent", direct.Pos(), "html.ElementNode not found")
 		return
 	}
-	mk := func(self ssa.Value) (func(ssa.Value) bool, func(ssa.Value, *eng.StrIntern) (int64, bool)) {
+	mk := func(selfV ssa.Value) (func(ssa.Value) bool, func(ssa.Value, *eng.StrIntern) (int64, bool)) {
+		// the item node: the parameter itself, or a load of the cell it was spilled to because a closure captures it
+		isSelf := func(v ssa.Value) bool {
+			if v == selfV {
+				return true
+			}
+			if ld, ok := v.(*ssa.UnOp); ok && ld.Op == token.MUL {
+				if cell, ok := ld.X.(*ssa.Alloc); ok {
+					n, fromPar := 0, false
+					for _, r := range *cell.Referrers() {
+						if st, ok := r.(*ssa.Store); ok && st.Addr == ssa.Value(cell) {
+							n++
+							if st.Val == selfV {
+								fromPar = true
+							}
+						}
+					}
+					return n == 1 && fromPar
+				}
+			}
+			return false
+		}
 		isChild := func(v ssa.Value) bool {
 			base, ok := htmlNodeField(v, "Data")
-			return ok && base != self
+			return ok && !isSelf(base)
 		}
 		leaf := func(v ssa.Value, si *eng.StrIntern) (int64, bool) {
 			if _, ok := htmlNodeField(v, "Type"); ok {
 				return elem, true
 			}
-			if base, ok := htmlNodeField(v, "Data"); ok && base == self {
+			if base, ok := htmlNodeField(v, "Data"); ok && isSelf(base) {
 				return si.ID("li"), true
 			}
 			if fr, ok := eng.LoadOfField(v); ok && fr.Field == "inList" {
@@ -114,7 +135,20 @@ func ruleListItemChildCoverage(c *eng.Ctx) {
 			continue
 		}
 		for _, ci := range eng.Calls(f, false, func(_ string, ci ssa.CallInstruction) bool { return ci.Common().StaticCallee() == direct }) {
-			if p, ok := ci.Common().Args[0].(*ssa.Parameter); ok {
+			arg := ci.Common().Args[0]
+			if ld, ok := arg.(*ssa.UnOp); ok && ld.Op == token.MUL {
+				// a parameter spilled to a cell because a closure captures it
+				if cell, ok := ld.X.(*ssa.Alloc); ok {
+					for _, r := range *cell.Referrers() {
+						if st, ok := r.(*ssa.Store); ok && st.Addr == ssa.Value(cell) {
+							if p, ok := st.Val.(*ssa.Parameter); ok {
+								arg = p
+							}
+						}
+					}
+				}
+			}
+			if p, ok := arg.(*ssa.Parameter); ok {
 				handlers = append(handlers, handler{f, p})
 				break
 			}
@@ -136,6 +170,15 @@ func ruleListItemChildCoverage(c *eng.Ctx) {
 			for _, a := range ci.Common().Args {
 				if a == self {
 					return false
+				}
+				if ld, ok := a.(*ssa.UnOp); ok && ld.Op == token.MUL {
+					if cell, ok := ld.X.(*ssa.Alloc); ok {
+						for _, r := range *cell.Referrers() {
+							if st, ok := r.(*ssa.Store); ok && st.Addr == ssa.Value(cell) && st.Val == self {
+								return false
+							}
+						}
+					}
 				}
 			}
 			return true
@@ -1064,9 +1107,11 @@ func contentModelRule(c *eng.Ctx, R string, pkgs []string, floor int, doc string
 							if tv, ok := d.Pkg.TypesInfo.Types[x]; ok && tv.Value != nil && tv.Value.Kind() == constant.String {
 								known[constant.StringVal(tv.Value)] = true
 							}
-						case *ast.CallExpr:
-							if id, ok := x.Fun.(*ast.Ident); ok {
-								if fnObj, ok := d.Pkg.TypesInfo.Uses[id].(*types.Func); ok && fnObj.Pkg() == pkg.Types {
+						case *ast.Ident:
+							// a package function that is called, or handed on as a function value (a predicate
+							// passed to the shared child walker)
+							if fnObj, ok := d.Pkg.TypesInfo.Uses[x].(*types.Func); ok && fnObj.Pkg() == pkg.Types {
+								if sig, ok := fnObj.Type().(*types.Signature); ok && sig.Recv() == nil {
 									collect(c.P.Decl(pkg.Name+"."+fnObj.Name()), depth+1)
 								}
 							}
